@@ -56,7 +56,7 @@ def stub_cyl(field, observers, dimension, polarization):
 
 
 def gen_seg_case(rng):
-    n = rng.choice([0, 1, 1, 2, 3, 4, 5, 6, 8])
+    n = rng.choice([0, 1, 1, 2, 3, 4, 5, 6, 8, 16, 24])
     rows = []
     for _ in range(n):
         phi1 = rng.choice([-360, -180, -90, 0, 0, 30, 90, 200])
@@ -394,7 +394,7 @@ def mesh_oracle(ctx, mk):
 
 
 # ------------------------------------------------------------------ search
-QUICK_N = {"cuboid_partition": 300, "cylinder_partition": 250, "cuboid_repr": 300, "sphere_dipole": 100,
+QUICK_N = {"cuboid_partition": 300, "cylinder_partition": 200, "cuboid_repr": 300, "sphere_dipole": 100,
            "polyline_circle": 60, "mesh_convert": 200, "mixed_partition": 200}
 
 
